@@ -387,6 +387,14 @@ func methodBeforeOperator(c *Ctx, plugin, pred, method, rule, opDesc string) {
 
 // checkC02 applies the equal rules.
 func runR_C02(c *Ctx) {
+	equalCoreRules(c, true)
+	c.Rep.floor("R6", 100)
+}
+
+// equalCoreRules: the equal plugin's own residual rules (also part of C14 and C18: unique, contains and mem decide membership
+// with the derived equal function).
+// leafSemantics: also judge the nil-blindness of library comparisons (a question about Equal itself, not about its users).
+func equalCoreRules(c *Ctx, leafSemantics bool) {
 	sweepHealth(c, "equal")
 	rR1(c, "equal")
 	type bodyKey struct{ decisions string }
@@ -409,7 +417,9 @@ func runR_C02(c *Ctx) {
 		ok = reportIssues(c, rs, "R19", "", s.fieldCoverage("AB")) && ok
 		ok = reportIssues(c, rs, "R7", "", s.guardIssues(true)) && ok
 		ok = reportIssues(c, rs, "R10", "", writesThroughRoots(s, nil)) && ok
-		ok = reportIssues(c, rs, "R-leaf", "", nilBlindLibCalls(s)) && ok
+		if leafSemantics {
+			ok = reportIssues(c, rs, "R-leaf", "", nilBlindLibCalls(s)) && ok
+		}
 		ok = reportIssues(c, rs, "R-op", "", s.operatorLicenseIssues("canEqual")) && ok
 		if ok {
 			c.Rep.pass("R6")
@@ -453,7 +463,6 @@ func runR_C02(c *Ctx) {
 	methodBeforeOperator(c, "equal", "canEqual", "equalMethodInputParam", "R-method", "`==`")
 	runG9(c, "equal.canEqual")
 	g9Methods(c, methodSpec{"equal.equalMethodInputParam", "Equal", 1, 1, types.Bool})
-	c.Rep.floor("R6", 100)
 }
 
 // nilBlindLibCalls: library comparisons that are documented to treat nil and empty alike must be accompanied by a nil-ness
